@@ -596,6 +596,7 @@ fn emitted(rep: &mut Report, seed: u64, n: u64, only: Option<u64>) {
                                 let extras: Vec<String> = match &r.cd {
                                     cer::CdMode::ExtraStruct(_) => vec!["androidPackageName".into(), "nonce".into()],
                                     cer::CdMode::ExtraMap(m) => m.iter().map(|x| x.0.clone()).collect(),
+                                    cer::CdMode::Ticking(_) => vec!["seq".into()],
                                     _ => vec![],
                                 };
                                 let want: Vec<String> = ["type", "challenge", "origin", "crossOrigin"].iter().map(|s| s.to_string()).chain(extras).collect();
